@@ -13,12 +13,18 @@ Gen/Consts.vos Gen/Consts.vok Gen/Consts.required_vos: Gen/Consts.v
 Gen/IoConsts.vo Gen/IoConsts.glob Gen/IoConsts.v.beautified Gen/IoConsts.required_vo: Gen/IoConsts.v 
 Gen/IoConsts.vio: Gen/IoConsts.v 
 Gen/IoConsts.vos Gen/IoConsts.vok Gen/IoConsts.required_vos: Gen/IoConsts.v 
+Gen/SnapConsts.vo Gen/SnapConsts.glob Gen/SnapConsts.v.beautified Gen/SnapConsts.required_vo: Gen/SnapConsts.v 
+Gen/SnapConsts.vio: Gen/SnapConsts.v 
+Gen/SnapConsts.vos Gen/SnapConsts.vok Gen/SnapConsts.required_vos: Gen/SnapConsts.v 
 Model/Framing.vo Model/Framing.glob Model/Framing.v.beautified Model/Framing.required_vo: Model/Framing.v Base/Res.vo Base/Octets.vo Base/ListX.vo Gen/IoConsts.vo
 Model/Framing.vio: Model/Framing.v Base/Res.vio Base/Octets.vio Base/ListX.vio Gen/IoConsts.vio
 Model/Framing.vos Model/Framing.vok Model/Framing.required_vos: Model/Framing.v Base/Res.vos Base/Octets.vos Base/ListX.vos Gen/IoConsts.vos
 Model/NameWire.vo Model/NameWire.glob Model/NameWire.v.beautified Model/NameWire.required_vo: Model/NameWire.v Base/Res.vo Base/Octets.vo Gen/Consts.vo
 Model/NameWire.vio: Model/NameWire.v Base/Res.vio Base/Octets.vio Gen/Consts.vio
 Model/NameWire.vos Model/NameWire.vok Model/NameWire.required_vos: Model/NameWire.v Base/Res.vos Base/Octets.vos Gen/Consts.vos
+Model/Snapshot.vo Model/Snapshot.glob Model/Snapshot.v.beautified Model/Snapshot.required_vo: Model/Snapshot.v 
+Model/Snapshot.vio: Model/Snapshot.v 
+Model/Snapshot.vos Model/Snapshot.vok Model/Snapshot.required_vos: Model/Snapshot.v 
 Proofs/FramingP.vo Proofs/FramingP.glob Proofs/FramingP.v.beautified Proofs/FramingP.required_vo: Proofs/FramingP.v Base/Res.vo Base/Octets.vo Base/ListX.vo Model/Framing.vo Spec/FramingS.vo Proofs/FramingSP.vo
 Proofs/FramingP.vio: Proofs/FramingP.v Base/Res.vio Base/Octets.vio Base/ListX.vio Model/Framing.vio Spec/FramingS.vio Proofs/FramingSP.vio
 Proofs/FramingP.vos Proofs/FramingP.vok Proofs/FramingP.required_vos: Proofs/FramingP.v Base/Res.vos Base/Octets.vos Base/ListX.vos Model/Framing.vos Spec/FramingS.vos Proofs/FramingSP.vos
@@ -31,12 +37,18 @@ Proofs/NameWireP.vos Proofs/NameWireP.vok Proofs/NameWireP.required_vos: Proofs/
 Proofs/NameWireSP.vo Proofs/NameWireSP.glob Proofs/NameWireSP.v.beautified Proofs/NameWireSP.required_vo: Proofs/NameWireSP.v Base/ListX.vo Spec/NameWireS.vo
 Proofs/NameWireSP.vio: Proofs/NameWireSP.v Base/ListX.vio Spec/NameWireS.vio
 Proofs/NameWireSP.vos Proofs/NameWireSP.vok Proofs/NameWireSP.required_vos: Proofs/NameWireSP.v Base/ListX.vos Spec/NameWireS.vos
+Proofs/SnapshotP.vo Proofs/SnapshotP.glob Proofs/SnapshotP.v.beautified Proofs/SnapshotP.required_vo: Proofs/SnapshotP.v Model/Snapshot.vo Spec/SnapshotS.vo
+Proofs/SnapshotP.vio: Proofs/SnapshotP.v Model/Snapshot.vio Spec/SnapshotS.vio
+Proofs/SnapshotP.vos Proofs/SnapshotP.vok Proofs/SnapshotP.required_vos: Proofs/SnapshotP.v Model/Snapshot.vos Spec/SnapshotS.vos
 Props/C14.vo Props/C14.glob Props/C14.v.beautified Props/C14.required_vo: Props/C14.v Base/ListX.vo Model/NameWire.vo Spec/NameWireS.vo Spec/NameRepr.vo Proofs/NameWireP.vo Proofs/NameWireSP.vo
 Props/C14.vio: Props/C14.v Base/ListX.vio Model/NameWire.vio Spec/NameWireS.vio Spec/NameRepr.vio Proofs/NameWireP.vio Proofs/NameWireSP.vio
 Props/C14.vos Props/C14.vok Props/C14.required_vos: Props/C14.v Base/ListX.vos Model/NameWire.vos Spec/NameWireS.vos Spec/NameRepr.vos Proofs/NameWireP.vos Proofs/NameWireSP.vos
 Props/C30.vo Props/C30.glob Props/C30.v.beautified Props/C30.required_vo: Props/C30.v Base/Res.vo Base/Octets.vo Base/ListX.vo Gen/IoConsts.vo Model/Framing.vo Spec/FramingS.vo Proofs/FramingSP.vo Proofs/FramingP.vo
 Props/C30.vio: Props/C30.v Base/Res.vio Base/Octets.vio Base/ListX.vio Gen/IoConsts.vio Model/Framing.vio Spec/FramingS.vio Proofs/FramingSP.vio Proofs/FramingP.vio
 Props/C30.vos Props/C30.vok Props/C30.required_vos: Props/C30.v Base/Res.vos Base/Octets.vos Base/ListX.vos Gen/IoConsts.vos Model/Framing.vos Spec/FramingS.vos Proofs/FramingSP.vos Proofs/FramingP.vos
+Props/C32.vo Props/C32.glob Props/C32.v.beautified Props/C32.required_vo: Props/C32.v Gen/SnapConsts.vo Model/Snapshot.vo Spec/SnapshotS.vo Proofs/SnapshotP.vo
+Props/C32.vio: Props/C32.v Gen/SnapConsts.vio Model/Snapshot.vio Spec/SnapshotS.vio Proofs/SnapshotP.vio
+Props/C32.vos Props/C32.vok Props/C32.required_vos: Props/C32.v Gen/SnapConsts.vos Model/Snapshot.vos Spec/SnapshotS.vos Proofs/SnapshotP.vos
 Spec/FramingS.vo Spec/FramingS.glob Spec/FramingS.v.beautified Spec/FramingS.required_vo: Spec/FramingS.v Base/Res.vo Base/Octets.vo
 Spec/FramingS.vio: Spec/FramingS.v Base/Res.vio Base/Octets.vio
 Spec/FramingS.vos Spec/FramingS.vok Spec/FramingS.required_vos: Spec/FramingS.v Base/Res.vos Base/Octets.vos
@@ -46,3 +58,6 @@ Spec/NameRepr.vos Spec/NameRepr.vok Spec/NameRepr.required_vos: Spec/NameRepr.v 
 Spec/NameWireS.vo Spec/NameWireS.glob Spec/NameWireS.v.beautified Spec/NameWireS.required_vo: Spec/NameWireS.v Base/Res.vo Base/Octets.vo
 Spec/NameWireS.vio: Spec/NameWireS.v Base/Res.vio Base/Octets.vio
 Spec/NameWireS.vos Spec/NameWireS.vok Spec/NameWireS.required_vos: Spec/NameWireS.v Base/Res.vos Base/Octets.vos
+Spec/SnapshotS.vo Spec/SnapshotS.glob Spec/SnapshotS.v.beautified Spec/SnapshotS.required_vo: Spec/SnapshotS.v Model/Snapshot.vo
+Spec/SnapshotS.vio: Spec/SnapshotS.v Model/Snapshot.vio
+Spec/SnapshotS.vos Spec/SnapshotS.vok Spec/SnapshotS.required_vos: Spec/SnapshotS.v Model/Snapshot.vos
